@@ -2,11 +2,10 @@ module kverif
 
 go 1.23.0
 
-require github.com/segmentio/kafka-go v0.0.0
-
 require (
-	github.com/klauspost/compress v1.15.9 // indirect
-	github.com/pierrec/lz4/v4 v4.1.15 // indirect
+	github.com/klauspost/compress v1.15.9
+	github.com/pierrec/lz4/v4 v4.1.15
+	github.com/segmentio/kafka-go v0.0.0
 )
 
 replace github.com/segmentio/kafka-go => /repo
